@@ -105,10 +105,94 @@ func (c *Ctx) staticPkgCallee(cc *ssa.CallCommon) *ssa.Function {
 	return nil
 }
 
+// phiAlias: phis every use of which lies under branch facts that determine the incoming edge
+// (the value half of the (value, ok) / (value, err) pair an inlined helper leaves behind): at
+// every place it is used such a phi *is* the aliased value, so peel looks through it.
+var phiAlias = map[*ssa.Phi]ssa.Value{}
+
+func computePhiAliases(c *Ctx) {
+	phiAlias = map[*ssa.Phi]ssa.Value{}
+	for _, fn := range c.Funcs {
+		for _, b := range fn.Blocks {
+			for _, in := range b.Instrs {
+				ph, ok := in.(*ssa.Phi)
+				if !ok {
+					break
+				}
+				refs := ph.Referrers()
+				if refs == nil {
+					continue
+				}
+				var alias ssa.Value
+				okAll, n := true, 0
+				for _, u := range *refs {
+					var ats []*ssa.BasicBlock
+					switch x := u.(type) {
+					case *ssa.DebugRef:
+						continue
+					case *ssa.Phi:
+						for i, e := range x.Edges {
+							if e == ssa.Value(ph) && i < len(x.Block().Preds) {
+								ats = append(ats, x.Block().Preds[i])
+							}
+						}
+					default:
+						ats = append(ats, u.Block())
+					}
+					for _, at := range ats {
+						n++
+						r := resolveAt(ph, at)
+						if r == ssa.Value(ph) || (alias != nil && r != alias) {
+							okAll = false
+						}
+						alias = r
+					}
+				}
+				if okAll && n > 0 && alias != nil {
+					if _, isPhi := alias.(*ssa.Phi); !isPhi {
+						phiAlias[ph] = alias
+					}
+				}
+			}
+		}
+	}
+}
+
+// phiModuloZero: the one non-constant source of a phi whose other edges are zero-value
+// constants ("", nil, false, 0) - "the member, or nothing": what `s, _ := m[k].(string)` and an
+// inlined lookup helper whose ok result is ignored deliver.
+func phiModuloZero(ph *ssa.Phi) ssa.Value {
+	var only ssa.Value
+	for _, e := range ph.Edges {
+		if c, ok := e.(*ssa.Const); ok {
+			if c.Value == nil || (c.Value.Kind() == constant.String && constant.StringVal(c.Value) == "") || (c.Value.Kind() == constant.Bool && !constant.BoolVal(c.Value)) {
+				continue
+			}
+			if c.Value.Kind() == constant.Int {
+				if n, exact := constant.Int64Val(c.Value); exact && n == 0 {
+					continue
+				}
+			}
+			return nil
+		}
+		if only != nil && e != only {
+			return nil
+		}
+		only = e
+	}
+	return only
+}
+
 // peel removes representation-only wrappers.
 func peel(v ssa.Value) ssa.Value {
 	for {
 		switch x := v.(type) {
+		case *ssa.Phi:
+			a := phiAlias[x]
+			if a == nil {
+				return v
+			}
+			v = a
 		case *ssa.MakeInterface:
 			v = x.X
 		case *ssa.ChangeInterface:
